@@ -30,11 +30,12 @@ package facts
 //               regenerates), time.Second & co, receiver fields named in the FnSpec,
 //               ! && || == != < <= > >= + - * (ints; + also on strings), len, append, make(T, 0),
 //               []byte(x) / string(x) / byte(lit) / int(x), []byte{…}, [][]byte{…}, []string{…},
-//               x[i], x[i:j], and calls of the library table below or of the FnSpec's own table.
+//               x[i], x[i:j], make([]T, n), x[i] = e (→ `Go.set`), and calls of the library table
+//               below or of the FnSpec's own table.
 // Control flow  `if` whose branches neither return nor index is rendered as a join
 //               (`let (a, b) := if c then … else …`) over the variables assigned in it; any other
 //               `if` duplicates the continuation into both branches (early return).
-// Panics        every x[i] / x[i:j] is preceded by its bounds test (short-circuit aware); if it
+// Panics        every x[i] / x[i:j] / make(T, n) is preceded by its bounds test (short-circuit aware); if it
 //               fails the body yields `none`. A body that indexes therefore has type `Option _`.
 // Scoping       a `:=` that shadows a visible local is `unsupported_shadowing` (the rendering
 //               relies on Lean's `let` shadowing only for re-assignment).
@@ -760,6 +761,14 @@ func (t *bodyTr) call(x *ast.CallExpr, sc bscope, want string) Val {
 					if n, ok := EvalConst(x.Args[1], nil); ok && !n.IsStr && n.N == 0 && (ty == "bytes" || ty == "list") {
 						return Val{"([] : " + leanTy(ty) + ")", ty}
 					}
+					// make([]T, n): n zero values; a negative n panics
+					if zero := map[string]string{"bytes": "(0 : UInt8)", "list": "([] : Bytes)"}[ty]; zero != "" {
+						n := t.expr(x.Args[1], sc, "int")
+						if n.Ty == "int" {
+							t.checks = append(t.checks, t.guarded("decide (0 ≤ "+n.Lean+")"))
+							return Val{"(List.replicate (Int.toNat " + n.Lean + ") " + zero + ")", ty}
+						}
+					}
 				}
 				return Val{t.unsupported("make"), want}
 			}
@@ -847,10 +856,14 @@ func (t *bodyTr) flush(ctx bctx, ind string) string {
 func hasExit(n ast.Node) bool {
 	found := false
 	ast.Inspect(n, func(m ast.Node) bool {
-		switch m.(type) {
+		switch x := m.(type) {
 		case *ast.ReturnStmt, *ast.BranchStmt, *ast.IndexExpr, *ast.SliceExpr, *ast.RangeStmt, *ast.ForStmt,
 			*ast.GoStmt, *ast.DeferStmt, *ast.SelectStmt, *ast.FuncLit:
 			found = true
+		case *ast.CallExpr:
+			if id, ok := x.Fun.(*ast.Ident); ok && id.Name == "make" {
+				found = true
+			}
 		}
 		return !found
 	})
@@ -868,7 +881,12 @@ func (t *bodyTr) assigned(nodes []ast.Node, sc bscope) []string {
 			out = append(out, n)
 		}
 	}
-	target := func(e ast.Expr) {
+	var target func(e ast.Expr)
+	target = func(e ast.Expr) {
+		if ix, ok := e.(*ast.IndexExpr); ok {
+			target(ix.X)
+			return
+		}
 		if s, ok := t.stateByKey(t.exprKey(e)); ok {
 			add(s.Lean)
 			return
@@ -1147,6 +1165,21 @@ func (t *bodyTr) assign(x *ast.AssignStmt, sc bscope, ctx bctx, ind string, rest
 				return pre + fmt.Sprintf("%slet %s := %s\n", ind, tuple(names), v.Lean) + rest(sc2, ind)
 			}
 		}
+	}
+	// x[i] = e
+	if ix, ok := x.Lhs[0].(*ast.IndexExpr); ok && len(x.Lhs) == 1 && len(x.Rhs) == 1 && x.Tok == token.ASSIGN {
+		ln, ty := t.lhs(ix.X, sc)
+		el := map[string]string{"bytes": "byte", "list": "bytes"}[ty]
+		i := t.expr(ix.Index, sc, "int")
+		if el == "" || i.Ty != "int" {
+			return bad("index_assign")
+		}
+		t.checks = append(t.checks, t.guarded("Go.idxOK (Go.len "+ln+") "+i.Lean))
+		v := t.expr(x.Rhs[0], sc, el)
+		if v.Ty != el {
+			v.Lean = t.unsupported("index_assign_type")
+		}
+		return t.flush(ctx, ind) + fmt.Sprintf("%slet %s := (Go.set %s %s %s)\n", ind, ln, ln, i.Lean, v.Lean) + rest(sc, ind)
 	}
 	if len(x.Lhs) != len(x.Rhs) {
 		return bad("assign_arity")
@@ -1517,6 +1550,11 @@ func GenBody(spec *FnSpec) string {
 		case *ast.CallExpr:
 			if f, ok := spec.Funcs[t.exprKey(x.Fun)]; ok && f.Partial {
 				t.mayPanic = true
+			}
+			if id, ok := x.Fun.(*ast.Ident); ok && id.Name == "make" && len(x.Args) == 2 {
+				if n, ok := EvalConst(x.Args[1], nil); !ok || n.N != 0 {
+					t.mayPanic = true
+				}
 			}
 		}
 		return true
